@@ -146,6 +146,19 @@ CHECKS = {
         design_ref="DESIGN.md 5 C15",
         note=NOTE_COMMON + " Numeric closeness is computed by numpy in the harness (tolerance 2e-5 single / 1e-9 double).",
     ),
+    "C21": dict(
+        text=("TLC explores AberrationsModel (coefficient store addressed by 25 polar symbols and 25 aliases incl. defocus = -C10, "
+              "set by attribute or set_aberrations, read, evaluate) exhaustively to depth 2 over all names and checks the "
+              "addressing invariants; the (n, m) table of the polar expansion lives in Aberrations.tla and is printed by TLC "
+              "for the reference evaluation.  All [set; get; evaluate] and [evaluate; set; evaluate] histories per name, a "
+              "sample of the 6.3e4 two-step histories and simulated length-4 histories are replayed on a real Aberrations "
+              "object; AberrationsTrace.tla decides that the reported coefficients follow the abstract store after every step, "
+              "that each evaluation on a 7x16 (alpha, phi) grid in double precision equals exp(-2 pi i chi/lambda) for the "
+              "current coefficients (deviation logged), and the azimuthal rotation identity."),
+        technique="TLA+ state machine of the coefficient store (TLC) + spec-generated histories replayed on the real object + TLC trace validation; chi evaluated by a numpy reference built from the spec's table",
+        design_ref="DESIGN.md 5 C21",
+        note=NOTE_COMMON + " The wavelength is taken from abtem.core.energy (C24 is not claimed); tolerance 1e-7 on |transfer| = 1.",
+    ),
 }
 
 NOT_APPLICABLE = {
